@@ -77,10 +77,10 @@ Section Pos.
     | RNone => True
     | RFunc fl => loc_contains fl (v_loc v) = true \/ loc_contains fl pl = false
     | RName fl | RCall fl => loc_contains fl pl = false
-    end -> is_correct_position v pl = true.
+    end -> init_hides v pl = false -> is_correct_position v pl = true.
   Proof.
-    intros Hs Hl Hr. unfold is_correct_position.
-    rewrite (proj2 (loc_before_iff W HW line col Hcol (v_loc v) Hs) Hl). cbn [negb].
+    intros Hs Hl Hr Hih. unfold is_correct_position.
+    rewrite (proj2 (loc_before_iff W HW line col Hcol (v_loc v) Hs) Hl). cbn [negb]. rewrite Hih.
     destruct (v_ref v); auto; try (rewrite Hr; reflexivity).
     destruct Hr as [Hr|Hr]; rewrite Hr; [reflexivity|]. destruct (loc_contains l (v_loc v)); reflexivity.
   Qed.
@@ -104,13 +104,19 @@ Section Pos.
     { eapply Forall_impl; [|exact Hv]. intros v [[Hs _] _]. destruct (Hc _ _ Hs Hin) as [H1 _]. cbn [mark_key] in H1.
       destruct (ids_ok _ (Hm _ Hs)) as (_ & _ & Hck). split; [apply (cok_bounds W _ Hck)|lia]. }
     split; [exact Hb|]. rewrite Forall_forall in *. intros v Hvin _. destruct (Hb v Hvin) as [Hs Hlo].
-    apply icp_before; auto. destruct (Hv v Hvin) as [_ Hr]. destruct (v_ref v) as [|fl|fl|fl]; cbn [refm] in Hr; auto.
-    - right. destruct Hr as [Ho Hcl]. destruct (Hc _ _ Hcl Hin) as [_ H2]. specialize (H2 eq_refl eq_refl). cbn [mark_key] in H2.
-      apply not_contains_before; [exact (Hm _ Ho)|lia].
-    - destruct Hr as [Ho Hcl]. destruct (Hc _ _ Hcl Hin) as [_ H2]. specialize (H2 eq_refl eq_refl). cbn [mark_key] in H2.
-      destruct (ids_ok _ (Hm _ Ho)) as (_ & _ & Hck). apply not_contains_before; [exact Hck|lia].
-    - destruct Hr as [Ho Hcl]. destruct (Hc _ _ Hcl Hin) as [_ H2]. specialize (H2 eq_refl eq_refl). cbn [mark_key] in H2.
-      apply not_contains_before; [exact (Hm _ Ho)|lia].
+    destruct (Hv v Hvin) as [_ [Hr [_ Hi]]].
+    apply icp_before; auto.
+    - destruct (v_ref v) as [|fl|fl|fl]; cbn [refm] in Hr; auto.
+      + right. destruct Hr as [Ho Hcl]. destruct (Hc _ _ Hcl Hin) as [_ H2]. specialize (H2 eq_refl eq_refl). cbn [mark_key] in H2.
+        apply not_contains_before; [exact (Hm _ Ho)|lia].
+      + destruct Hr as [Ho Hcl]. destruct (Hc _ _ Hcl Hin) as [_ H2]. specialize (H2 eq_refl eq_refl). cbn [mark_key] in H2.
+        destruct (ids_ok _ (Hm _ Ho)) as (_ & _ & Hck). apply not_contains_before; [exact Hck|lia].
+      + destruct Hr as [Ho Hcl]. destruct (Hc _ _ Hcl Hin) as [_ H2]. specialize (H2 eq_refl eq_refl). cbn [mark_key] in H2.
+        apply not_contains_before; [exact (Hm _ Ho)|lia].
+    - (* the initialiser region of an earlier declaration is closed before the cursor *)
+      unfold init_hides. destruct (v_init v) as [il|]; [|reflexivity].
+      destruct Hi as [Ho Hcl]. destruct (Hc _ _ Hcl Hin) as [_ H2]. specialize (H2 eq_refl eq_refl). cbn [mark_key] in H2.
+      rewrite (not_contains_before il (Hm _ Ho)) by lia. reflexivity.
   Qed.
 
   Lemma nohit_after v : 0 <= sc (v_loc v) < W -> K < lo W (v_loc v) -> hit v = false.
